@@ -52,6 +52,7 @@ func (c *ConfigReceiver) Derive(adjust curve.Scalar, newChainKey []byte) (*Confi
 		Setup:       c.Setup,
 		SecretShare: c.SecretShare.Curve().NewScalar().Set(c.SecretShare).Add(adjust),
 		Public:      c.Public.Add(adjustG),
+		ChainKey:    newChainKey,
 	}, nil
 }
 
@@ -166,6 +167,7 @@ func (c *ConfigSender) Derive(adjust curve.Scalar, newChainKey []byte) (*ConfigS
 		Setup:       c.Setup,
 		SecretShare: c.SecretShare.Curve().NewScalar().Set(c.SecretShare).Add(adjust),
 		Public:      c.Public.Add(adjustG),
+		ChainKey:    newChainKey,
 	}, nil
 }
 
